@@ -67,6 +67,10 @@ class Kernel:
         self.switches = 0
         self.deadlocked = False
         self.main: SimThread | None = None
+        # line-level pre-emption (sys.settrace): every source line of the files whose path contains one of these
+        # fragments is a yield point while at least one other simulated thread could run.  Off by default.
+        self.line_preempt: tuple = ()
+        self.line_yields = 0
 
     # ------------------------------------------------------------------ logging
     def log(self, label: str):
@@ -87,17 +91,43 @@ class Kernel:
     def sched_digest(self) -> str:
         return self.sched_h.hexdigest()[:16]
 
+    # ------------------------------------------------------------------ line-level pre-emption
+    def _trace(self, frame, event, arg):
+        if event != "call" or not self.line_preempt:
+            return None
+        fn = frame.f_code.co_filename
+        for frag in self.line_preempt:
+            if frag in fn:
+                return self._trace_lines
+        return None
+
+    def _trace_lines(self, frame, event, arg):
+        if event == "line" and not self.killing:
+            t = self.current
+            if t is not None and threading.current_thread() is t.real and \
+                    any(th is not t and th.state != "done" and th.pred is None for th in self.threads):
+                self.line_yields += 1
+                self.yield_point(f"line:{frame.f_code.co_name}:{frame.f_lineno - frame.f_code.co_firstlineno}")
+        return self._trace_lines
+
     # ------------------------------------------------------------------ lifecycle
     def run(self, main_fn):
         """Run main_fn as simulated thread 'main' on the calling real thread."""
+        import sys
+
         t = SimThread(0, "main", 0, main_fn)
         t.real = threading.current_thread()
         self.threads.append(t)
         self.current = t
         self.main = t
+        traced = bool(self.line_preempt)
+        if traced:
+            sys.settrace(self._trace)
         try:
             return main_fn()
         finally:
+            if traced:
+                sys.settrace(None)
             t.state = "done"
             self.finish()
 
@@ -136,6 +166,10 @@ class Kernel:
             if th.kill:
                 raise SimKill
             th.pred = None
+            if self.line_preempt:
+                import sys
+
+                sys.settrace(self._trace)
             th.fn()
         except SimKill:
             pass
